@@ -100,10 +100,22 @@ def do_call(c):
             os.chdir(here)
 
 
+_UTILS_SNAP = None
+
+
 def clear_caches():
+    """Module-level containers of athlib.utils back to their import-time content (the two validation caches under their
+    present names, and any cache a later change adds under another name)."""
+    global _UTILS_SNAP
     u = mod('utils')
-    u._schema_valid_cache.clear()
-    u._valid_against_schema_cache.clear()
+    if _UTILS_SNAP is None:
+        from vlib.statesnap import Snap
+        for nm in ('_schema_valid_cache', '_valid_against_schema_cache'):
+            c = getattr(u, nm, None)
+            if hasattr(c, 'clear'):
+                c.clear()
+        _UTILS_SNAP = Snap(u)
+    _UTILS_SNAP.restore()
 
 
 FRESH_SNIPPET = r'''
